@@ -541,7 +541,7 @@ def r19_3(ctx):
     """"does this address lie in that buffer" is decided as data <= p < data + used
     everywhere (the first byte of a buffer belongs to it: a pointer to offset 0 must
     be fixed up when the buffer moves and must convert to a reference)"""
-    from .C14 import canon
+    from .C14 import canon, rcanon
     prog = ctx.prog
     n = 0
     for f in prog.fns():
@@ -549,7 +549,7 @@ def r19_3(ctx):
             continue
         k = 0
         for a in f.all_nodes():
-            if a['k'] != 'bin' or a['op'] != '&&':
+            if a['k'] != 'bin' or a['op'] not in ('&&', '||'):
                 continue
             l, r = cu.strip_casts(f, f.kid(a, 0)), cu.strip_casts(f, f.kid(a, 1))
             if l is None or r is None or l['k'] != 'bin' or r['k'] != 'bin':
@@ -558,8 +558,12 @@ def r19_3(ctx):
                 continue
             FLIP = {'<': '>', '<=': '>=', '>': '<', '>=': '<='}
 
+            NEG = {'<': '>=', '>=': '<', '>': '<=', '<=': '>'}
+            outside = a['op'] == '||'       # `x < lo || x >= hi` is "not inside"
+
             def oriented(c):
-                a, b = canon(f, f.kid(c, 0)), canon(f, f.kid(c, 1))
+                # through locals that merely name the bounds (old_data, old_end)
+                a, b = rcanon(f, f.kid(c, 0)), rcanon(f, f.kid(c, 1))
                 # the tested address on the left, the buffer bound on the right
                 if ('data' in a and 'data' not in b):
                     return b, a, FLIP[c['op']]
@@ -568,6 +572,8 @@ def r19_3(ctx):
             xr, br, opr = oriented(r)
             if xl != xr:
                 continue
+            if outside:
+                opl, opr = NEG[opl], NEG[opr]
             l = {'op': opl, 'b': bl}
             r = {'op': opr, 'b': br}
             lo, hi = (l, r) if bl.endswith('data') or bl.endswith('.data') else (r, l)
